@@ -133,6 +133,8 @@ pub struct WCfg {
     /// C14: payment `hash_hex` is frozen (none of its events is ever taken) once `after` of its events happened
     pub freeze: Option<Freeze>,
     pub max_stalls: u32,
+    /// how often the caller of a held htlc_accepted handler may go away (its future is dropped); 0 = never
+    pub max_cancels: u32,
     /// `Hold` deviations: the next event is applied without letting the plugin run, so that it reaches the plugin
     /// together with the event after it
     pub max_holds: u32,
@@ -188,6 +190,7 @@ impl WCfg {
             probe: false,
             freeze: None,
             max_stalls: 2,
+            max_cancels: 0,
             max_holds: 0,
             no_picks: false,
             max_parks: 1,
@@ -264,6 +267,8 @@ enum HState {
     Held { inc: u32 },
     Answered { resp: String },
     Panicked,
+    /// the caller dropped the handler's future while the HTLC was held (no response is owed to it any more)
+    Cancelled,
 }
 
 #[derive(Clone, Debug)]
@@ -285,6 +290,8 @@ enum Ev {
     Flush,
     /// the task that was suspended at a preemption point continues (nothing else happens)
     Resume,
+    /// the caller of a held htlc_accepted handler goes away: its future is dropped
+    Cancel(usize),
 }
 
 struct CountPolls<F> {
@@ -385,6 +392,7 @@ pub struct W {
     prefix_failed: bool,
     req_labels: Vec<String>,
     stalls: u32,
+    cancels: u32,
     holds: u32,
     hold_armed: bool,
     held_evs: Vec<Ev>,
@@ -575,7 +583,7 @@ impl W {
                     && self.cfg.templates[*i]
                         .after_answered
                         .iter()
-                        .all(|d| matches!(self.hstate[*d], HState::Answered { .. } | HState::Panicked))
+                        .all(|d| matches!(self.hstate[*d], HState::Answered { .. } | HState::Panicked | HState::Cancelled))
             })
             .collect()
     }
@@ -745,6 +753,13 @@ impl W {
             if !self.in_probe && budget {
                 for d in cfg.advance_menu_ms.iter().skip(1) {
                     alts.push((Ev::Advance(*d), format!("Advance({}ms)", d)));
+                }
+            }
+        }
+        if !self.in_probe && self.cancels < cfg.max_cancels {
+            for i in 0..self.hstate.len() {
+                if self.hstate[i] == (HState::Held { inc: self.inc_no }) {
+                    alts.push((Ev::Cancel(i), format!("Cancel({})", cfg.templates[i].spec.name)));
                 }
             }
         }
@@ -1761,6 +1776,17 @@ impl W {
                 self.sim.with(|s| s.height = *h);
                 self.after_event(ev);
             }
+            Ev::Cancel(t) => {
+                self.cancels += 1;
+                self.view.add(&("cancel", t));
+                let inc = self.inc.as_mut().unwrap();
+                if let Some(pos) = inc.tasks.iter().position(|x| x.0 == *t) {
+                    let (_, h, _) = inc.tasks.remove(pos);
+                    h.abort();
+                }
+                self.hstate[*t] = HState::Cancelled;
+                self.after_event(ev);
+            }
             Ev::Flush | Ev::Resume => {
                 self.after_event(ev);
             }
@@ -1983,6 +2009,7 @@ impl Model for W {
             prefix_failed: false,
             req_labels: Vec::new(),
             stalls: 0,
+            cancels: 0,
             holds: 0,
             hold_armed: false,
             held_evs: Vec::new(),
@@ -2123,6 +2150,7 @@ impl Model for W {
         self.sim.with(|s| s.digest(&mut h));
         h.add(&self.hstate);
         h.add(&(self.vtime_ms, self.advances, self.height_events, self.crashes, self.faults, self.inc_no, self.told_height, self.idle_advances, self.stalls, self.holds, self.hold_armed, self.held_evs.len()));
+        h.add(&self.cancels);
         h.add(&self.last_step_responses);
         h.add(&self.mon);
         h.add(&(sched::parked(), self.parks_used, self.park_age, self.long_park));
@@ -2172,7 +2200,7 @@ impl Model for W {
                 }
                 match &self.hstate[t] {
                     HState::Answered { resp } if *resp == format!("resolve:{}", pre) => {}
-                    HState::Undelivered => {}
+                    HState::Undelivered | HState::Cancelled => {}
                     other => {
                         let d = format!("{} ended as {:?}", cfg.templates[t].spec.name, other);
                         self.violate("C02", "settled-if-complete", "outgoing payment completed but a held HTLC was not settled with its preimage".into(), d.clone());
